@@ -57,8 +57,9 @@ def no_memo_decorators(prog, rep, rule, modules, why):
             # a memoised function of its arguments alone (md5 of a url, a joined name) stays the same function; one that looks at the file
             # system, the clock, the network or at an object's attributes does not
             me = f.params[0] if f.params and f.cls is not None else None
-            stateful = any(call_name(c).split(".")[0] in ("os", "tempfile", "time", "datetime", "dt", "urllib", "urllib2", "shutil", "glob", "pathlib", "open")
-                           or call_name(c) in ("open", "urlopen") for c in calls_in(f.node)) or \
+            pure_path = ("os.path.join", "os.path.basename", "os.path.dirname", "os.path.splitext", "os.path.split", "os.path.normpath")
+            stateful = any((call_name(c).split(".")[0] in ("os", "tempfile", "time", "datetime", "dt", "urllib", "urllib2", "shutil", "glob", "pathlib")
+                            and call_name(c) not in pure_path) or call_name(c) in ("open", "urlopen") for c in calls_in(f.node)) or \
                 any(isinstance(y, ast.Attribute) and isinstance(y.value, ast.Name) and y.value.id == me for y in ast.walk(f.node)) or \
                 any(isinstance(y, ast.Global) for y in ast.walk(f.node))
             if not stateful:
